@@ -256,11 +256,19 @@ def run(tier, seed):
     ck.vacuity_twin("one-step query reaches a strictly entangled class when the potential forbids it", tw["verdict"] == "sat")
     if all_cases:
         ck.sample("nonoptimal", dict(key=all_cases[0][0], witness=all_cases[0][1]["witness"]))
+    hist = tables.history_check()
+    ck.obligations += 1
+    if not hist:
+        ck.discharged += 1
+    for h in hist[:5]:
+        ck.candidate("history %d %s->%s id=%d" % (h["n"], h["first"], h["second"], h["id"]), dict(kind="history", **h), h["what"])
     return ck.finish()
 
 
 # ------------------------------------------------------------------------------------------------ replay
 def replay(case):
+    if case.get("kind") == "history":
+        return tables.replay_history(case)
     """Build the witness circuit with qiskit, hand the state it prepares to the real get_preparation_circuit and
     compare two-qubit counts; the witness is also checked to respect the coupling graph and (dense simulation)
     to prepare the same state as the delivered circuit."""
